@@ -119,6 +119,11 @@ func makeC08Input(seed int64, stream string, idx int) c08Input {
 			}
 			in.Files = append(in.Files, core.File{Name: fmt.Sprintf("f%d.fga", k%2), Contents: txt})
 		}
+	case "mergesets":
+		// cooperating module files: G3 sets with injected conflicts under layouts hostile to textual lookups
+		for _, f := range genFileSet(r, mergeGenOpt{Conflicts: r.Intn(3), HostileText: true, ForceExtends: r.Intn(2) == 0}) {
+			in.Files = append(in.Files, core.File{Name: f.Name, Contents: f.Txt})
+		}
 	case "yaml":
 		mc := c08ModCorpus()
 		in.Text = mutateWith(r, mc[r.Intn(len(mc))], yamlTokens)
@@ -167,7 +172,7 @@ func makeC08Input(seed int64, stream string, idx int) c08Input {
 func (in c08Input) toCase() *core.Case {
 	c := &core.Case{Kind: "c08:" + in.Stream, Extra: map[string]string{"stream": in.Stream, "idx": fmt.Sprint(in.Idx)}}
 	switch in.Stream {
-	case "modfiles":
+	case "modfiles", "mergesets":
 		c.Files = in.Files
 	case "models":
 		c.Text = fmt.Sprintf("degenerations: %v\n%s", in.Notes, safePP(in.Model))
